@@ -117,7 +117,7 @@ func mapAttributeToBinarySet(val *types.Item) (Object, error) {
 }
 
 func mapAttributeToNumberSet(val *types.Item) (Object, error) {
-	ns := map[float64]bool{}
+	ns := &NumberSet{Value: map[float64]bool{}}
 
 	for _, val := range val.NS {
 		n, err := strconv.ParseFloat(types.StringValue(val), 64)
@@ -125,10 +125,9 @@ func mapAttributeToNumberSet(val *types.Item) (Object, error) {
 			return nil, err
 		}
 
-		ns[n] = true
+		ns.Value[n] = true
+		ns.setText(n, types.StringValue(val))
 	}
 
-	return &NumberSet{
-		Value: ns,
-	}, nil
+	return ns, nil
 }
